@@ -26,7 +26,8 @@ static uint64_t rng_seed(int site, uint64_t ctx) { std::lock_guard<std::mutex> l
 static const char* TAG[] = {"begin", "after_save", "after_division", "after_face_reset", "after_refinement", "after_contacts", "after_polarisation", "after_forces", "after_integration", "after_statistics", "after_removal"};
 
 static void on_phase_impl(int tag, const std::vector<cell_ptr>* lp);
-static void on_phase(int tag, const std::vector<cell_ptr>* lp) { on_phase_impl(tag, lp); if (g_mon && !g_mon->key.empty()) throw StopRun(); }
+static double g_limit = 1e300;
+static void on_phase(int tag, const std::vector<cell_ptr>* lp) { if (tag == 8 && tis::blown_up(*lp, g_limit)) throw tis::unstable_run(); on_phase_impl(tag, lp); if (g_mon && !g_mon->key.empty()) throw StopRun(); }
 static void on_phase_impl(int tag, const std::vector<cell_ptr>* lp) {
     Mon* m = g_mon; if (!m || !m->key.empty() || tag < 0 || tag > 10) return;
     const auto& L = *lp; m->checks++; m->max_cells = std::max<long>(m->max_cells, (long)L.size());
@@ -115,6 +116,7 @@ static std::string run_one(const Args& a, long i) {
     const bool few = a.geti("few_face_types", 0) != 0;
     int iters = g.range((int)a.geti("min_iterations", 30), (int)a.geti("max_iterations", 60));
     tis::Scenario s = make_pop(g, iters, few);
+    g_limit = tis::extent_limit(s);
     Mon mon; mon.cutoff = s.P.contact_cutoff_adhesion_; g_mon = &mon; g_rng_base = hash_combine(a.seed, (uint64_t)i); g_ctr.clear();
     auto& S = verif::get(); S.rng_seed = rng_seed; S.phase = on_phase;
     std::string out = "pop_out_" + std::to_string(i) + "_" + std::to_string((long)getpid()); s.P.output_folder_path_ = out;
@@ -126,6 +128,7 @@ static std::string run_one(const Args& a, long i) {
         cells1 = (long)sv.cells().size();
     } catch (const std::exception& e) { ended = "exception"; what = e.what(); }
     catch (const StopRun&) { ended = "stopped_at_violation"; }
+    catch (const tis::unstable_run&) { ended = "unstable"; }
     std::error_code ec; std::filesystem::remove_all(out, ec); g_mon = nullptr; S.phase = nullptr;
     if (!mon.key.empty()) c.viol(mon.key, mon.msg);
     c.nontrivial = (mon.divisions + mon.removals) > 0;
@@ -146,6 +149,7 @@ static int cmd_population(const Args& a) {
         auto num = [&](const std::string& k) -> long { size_t p = L.find("\"" + k + "\":"); if (p == std::string::npos) return 0; return atol(L.c_str() + p + k.size() + 3); };
         for (const char* k : {"iterations", "divisions", "removals", "removal_first", "removal_middle", "removal_last", "phase_checks", "couplings_checked", "faces_checked", "iterations_with_couplings", "ids_retired"}) agg.bin(k, num(k));
         if (L.find("\"ended\":\"exception\"") != std::string::npos) agg.bin("ended_by_exception");
+        if (L.find("\"ended\":\"unstable\"") != std::string::npos) agg.bin("ended_unstable");
         if (L.find("\"nt\":true") != std::string::npos) { agg.nontrivial++; size_t p = L.find("\"sig\":\""); if (p != std::string::npos) agg.sigs[strtoull(L.substr(p + 7, 16).c_str(), nullptr, 16)] = 1; }
         if (L.find("\"v\":\"viol\"") != std::string::npos) { agg.viol_total++; if (agg.viol_total <= (long)agg.max_viol) emit(L); }
         else if (agg.samples.size() < agg.max_samples && L.find("\"nt\":true") != std::string::npos) agg.samples.push_back(L);
